@@ -276,6 +276,13 @@ func ringSimilar(a, b []Point, e float64) bool {
 			ia = nextPt(ia, len(a))
 			ib = nextPt(ib, len(b))
 		}
+		if match && ib0 == ia0 && !pointSimilar(a[len(a)-1], b[len(b)-1], e) {
+			// The walk above never visits the closing points. When the rings
+			// are aligned without a rotation, each closing point is the
+			// partner of the other, and two rings that are closed only to
+			// within the tolerance may still differ there by more than it.
+			match = false
+		}
 		if match {
 			return true
 		}
